@@ -6,3 +6,11 @@ add("C04", "model_checking",
     "Every sequence (all file orders) of up to L lifecycle operations over a 72-symbol alphabet (L<=2 quick, <=3 thorough) and a 16-symbol core alphabet (L<=3 quick, <=5 thorough) is run through the real check/print/balance commands in-process; exit status, diagnostic and stdout emptiness are compared with an independent lifecycle automaton.",
     "Trusted: reference automaton (ref/lifecycle.go), in-process driver (validated against the plain binary on a subset), overlay rewrites. Journals longer than L and other amounts are outside the bound.",
     "bounded exhaustive operation-sequence enumeration against a reference automaton", "DESIGN.md 4 C04, A.1, A.2")
+add("C12", "model_checking",
+    "Every sequence of up to n price declarations over 4 commodities (incl. inverse, chained, cyclic, disconnected, zero prices and redeclarations) is inserted into the real price.Prices and normalized under every map iteration order; results are compared with the price specification (direct declaration wins, reciprocal truncated to 8 decimals, chain product truncated per step, unconnected => error) and must be identical across map orders.",
+    "Trusted: rational-arithmetic reference (checks/c12.go), vmap order enumeration (all permutations for maps of <= 4 entries). Price values outside the alphabet and graphs with more than 4 commodities are outside the bound.",
+    "bounded exhaustive input enumeration x exhaustive map-order exploration against a reference model", "DESIGN.md 4 C12, A.7")
+add("C10", "model_checking",
+    "Transactions (1-2 bookings, all pairs of account types incl. equity, 7 amounts incl. negative/zero/many decimals) x 6 intervals x every window start<=end over a date alphabet and a 40/100-day run are expanded by the real transaction.Create; every generated transaction must balance, every non-accrual account must receive exactly what the original booked, the accrual account must net to zero, income/expense legs must be dated exactly at the reference period ends and other legs on the original date.",
+    "Trusted: calendar reference (C11), hand-built syntax tree for the library entry. Amounts and windows outside the alphabet are not covered.",
+    "bounded exhaustive input enumeration with conservation invariants and a calendar reference", "DESIGN.md 4 C10, A.9")
